@@ -90,6 +90,9 @@ type Grammar struct {
 	// IndirectState: code blocks reach the state store through a helper that takes the receiver
 	// (verifSt(c)) instead of spelling c.state - what a grammar with helper functions does.
 	IndirectState bool
+	// IndirectGlobal: code blocks reach the globalStore only through a helper of the user's package that
+	// takes the receiver (no block spells the field's name)
+	IndirectGlobal bool
 	// StateHelperExtern: with IndirectState, the helper lives in another file of the user's package
 	// (the in-package harness), so no code block and no initializer of the grammar mentions the store
 	StateHelperExtern bool
@@ -185,7 +188,7 @@ func (e *Expr) Clone() *Expr {
 
 // CloneGrammar deep-copies a grammar.
 func (g *Grammar) Clone() *Grammar {
-	ng := &Grammar{UsesState: g.UsesState, Raw: g.Raw, IndirectState: g.IndirectState, StateHelperExtern: g.StateHelperExtern}
+	ng := &Grammar{UsesState: g.UsesState, Raw: g.Raw, IndirectState: g.IndirectState, StateHelperExtern: g.StateHelperExtern, IndirectGlobal: g.IndirectGlobal}
 	for _, r := range g.Rules {
 		ng.Rules = append(ng.Rules, &Rule{Name: r.Name, Display: r.Display, Expr: r.Expr.Clone()})
 	}
